@@ -4,18 +4,24 @@ from common import STATEX_ASSUME, splice_qbft
 
 
 CHECK = dict(
-    pkgs=["core/qbft"],
-    files={"core/qbft": ["zz_verif_c02_test.go", "zz_verif_hook.go"]},
+    pkgs=["core/qbft", "core/consensus/qbft"],
+    files={"core/qbft": ["zz_verif_c02_test.go", "zz_verif_hook.go"], "core/consensus/qbft": ["zz_verif_c05_test.go", "zz_verif_c02l_test.go"]},
     libs=["enumx"],
     splice={"core/qbft/qbft.go": splice_qbft},
-    run="TestVerifC02",
+    run={"core/qbft": "TestVerifC02", "core/consensus/qbft": "TestVerifC02L"},
     level="model_checking",
     engine="statex",
     technique="explicit-state model checking of the implementation: breadth-first search over the reachable global states of 3-7 real qbft.Run "
               "instances driven event by event (deliveries, timeouts, inputs) under a message-constructing Byzantine adversary; state keys are "
-              "canonical dumps of Run's private state",
+              "canonical dumps of Run's private state; plus, at the level of the consensus component, exhaustive enumeration of life-cycle scripts executed on four real "
+              "Consensus components in virtual time",
     claim="all global states reachable within the stated menu/bounds (rounds <= R, values, quorum-directed delivery sets, bounded noise) of n real "
-          "qbft.Run instances; agreement checked in every state",
+          "qbft.Run instances; agreement checked in every state. Component part (TestVerifC02L, core/consensus/qbft): the complete product, over the three honest "
+          "members and every position (or absence) of a Byzantine yes-voter (answers every PRE-PREPARE with PREPARE+COMMIT, every ROUND-CHANGE with a null "
+          "ROUND-CHANGE), of the life cycles {Participate and Propose at 0; Propose 1.2 s after Participate, i.e. after round 1; both at 1.2 s and everything "
+          "sent earlier lost; Participate only} (quick, 512 scripts; thorough 10 life cycles incl. Propose only, 0.3 s, 2.4 s) on real NewConsensus components "
+          "(real gater, deadliner, eager-double-linear timers, transport, stream handler; stub libp2p host of the C05 harness); oracle: no honest component "
+          "hands more than one decision per duty to its subscribers and all honest decisions are equal",
     trusted="testing/synctest quiescence; the one-line snapshot splice; state-key completeness (cross-checked by executing every local transition "
             "from two different representative histories)",
     rule="BFS over global states (tuple of local Run states + message pool); transitions are deliveries of enabling message sets, timeouts, inputs; "
